@@ -54,3 +54,103 @@ Theorem c16_mismatch_detected :
     exists s, s0 <= s < s0 + (d + p) + d_size st /\ type_mismatch st s (sender_flag d p s) = true.
 Proof. exact mismatch_detected. Qed.
 Print Assumptions c16_mismatch_detected.
+
+(* THE RING HOLDS THE LAST 258 SAMPLES.  Sample appends to the window and drops the oldest sample
+   once maxAutoTuneSamples are held (so after an uninterrupted run of 258 packets nothing older is
+   left), for every well-formed ring; new rings are well formed and empty. *)
+Theorem c16_ring_holds_last_samples :
+  (at_wf at_init /\ at_window at_init = []) /\
+  (forall t b s, at_wf t ->
+     at_wf (at_sample t b s) /\ at_window (at_sample t b s) = push_window (at_window t) (mkPulse b s)).
+Proof. exact (conj at_init_wf at_sample_window). Qed.
+Print Assumptions c16_ring_holds_last_samples.
+
+(* FINDPERIOD IS COMPLETE on aligned clean windows.  If the ring holds exactly an in-order
+   uninterrupted run of the sender (n samples from seqid s0, no u32 wrap inside) that starts one id
+   before a group boundary (one start in every d+p consecutive starts) and holds at least d+p+2
+   samples (258 >= d+p+2 for every d+p <= 256), both periods are found: FindPeriod(true) = d and
+   FindPeriod(false) = p.  (The sort is the identity on such a window.) *)
+Theorem c16_findperiod_complete :
+  forall (d p s0 : Z) (n : nat) (t : autotune),
+    0 < d -> 0 < p -> 0 <= s0 -> s0 mod (d + p) = d + p - 1 ->
+    (Z.to_nat (d + p) + 2 <= n)%nat -> s0 + Z.of_nat n <= 4294967296 ->
+    at_window t = run_pulses d p s0 n ->
+    find_period t true = d /\ find_period t false = p.
+Proof. exact find_period_complete. Qed.
+Print Assumptions c16_findperiod_complete.
+
+(* CONVERGENCE, the steps (partial: see c16_converges_full below for the composed statement).
+   (1) while the tune flag is set or the packet fails the type test, decode stores nothing and runs
+       the period search on the ring that already holds the packet's sample;
+   (2) on a ring holding samples of ONE d/p sender such a step either leaves the ratio and the group
+       table alone or adopts exactly d/p, clears the flag and empties the table - never a wrong ratio;
+   (3) on an aligned clean window (c16_findperiod_complete) it adopts d/p (d+p <= 255).
+   Together with c16_mismatch_detected (the flag is raised within (d+p)+(dr+pr) ids),
+   c16_ring_holds_last_samples (after 258 packets the window is the run itself, and one of every
+   d+p consecutive windows is aligned) and c16_stable (d/p with the flag clear is kept for ever)
+   these give the bound 258 + 2(d+p); the composition over the run is NOT machine-checked. *)
+Theorem c16_converges_partial :
+  (forall mk st pkt,
+     c_fecHeaderSize <= blen pkt -> pk_seqid pkt < d_paws st ->
+     d_should st || type_mismatch st (pk_seqid pkt) (pk_flag pkt) = true ->
+     dec_decode mk st pkt =
+       Ok (dec_retune (set_at st (at_sample (d_at st) (pk_flag pkt =? c_typeData) (pk_seqid pkt))), [])) /\
+  (forall d p st, 0 < d -> 0 < p -> Forall (consistent d p) (at_window (d_at st)) ->
+     (d_data (dec_retune st) = d_data st /\ d_parity (dec_retune st) = d_parity st /\
+      d_size (dec_retune st) = d_size st /\ d_paws (dec_retune st) = d_paws st /\ d_sets (dec_retune st) = d_sets st)
+     \/ (has_cfg (dec_retune st) d p /\ d_should (dec_retune st) = false /\ d_sets (dec_retune st) = [])) /\
+  (forall d p s0 n st,
+     0 < d -> 0 < p -> d + p <= 255 -> 0 <= s0 -> s0 mod (d + p) = d + p - 1 ->
+     (Z.to_nat (d + p) + 2 <= n)%nat -> s0 + Z.of_nat n <= 4294967296 ->
+     at_window (d_at st) = run_pulses d p s0 n ->
+     d_size st = d_data st + d_parity st -> d_paws st = paws_of (d_size st) ->
+     has_cfg (dec_retune st) d p /\ d_should (dec_retune st) = false).
+Proof. exact (conj decode_tuning_step (conj retune_sound retune_complete)). Qed.
+Print Assumptions c16_converges_partial.
+
+(* the composed statement (NOT proved; measured on the real decoder for every pair with d+p <= 6
+   and sampled to 255: worst case 3 packets below the bound) *)
+Definition c16_converges_full : Prop :=
+  forall (mk : Z -> Z -> codec) (d p s0 : Z) (body : nat -> bytes) (st : fecdec),
+    0 < d -> 0 < p -> d + p <= 255 ->
+    0 < d_data st -> 0 < d_parity st -> d_size st = d_data st + d_parity st -> d_size st <= 256 ->
+    d_paws st = paws_of (d_size st) ->
+    at_wf (d_at st) -> Forall (consistent d p) (at_window (d_at st)) ->
+    (forall i, blen (body i) + c_fecHeaderSize <= c_mtuLimit) ->
+    let N := 258 + 2 * (d + p) in
+    0 <= s0 -> s0 + N <= paws_of (d + p) -> s0 + N <= 4294967296 - 257 ->
+    exists st' outs,
+      run_dec mk st (map (fun i => le32 (s0 + Z.of_nat i) ++ le16 (sender_flag d p (s0 + Z.of_nat i)) ++ body i)
+                         (seq 0 (Z.to_nat N))) = Ok (st', outs) /\
+      has_cfg st' d p /\ d_should st' = false.
+
+(* STREAM INTACT (partial).  For ANY decoder state - mismatched ratio, tuning, any table, any ring -
+   (a) the session feeds the payload of every arriving data packet to the ARQ core first and
+   independently of decode: a mistuned or suspended decoder cannot remove or alter data; (b) what
+   decode adds is fed only if it passes the size test 2 <= sz <= len, as r[2:sz].  With the
+   matching ratio every such addition is an original payload (c07_only_originals); with equal data
+   counts and different parity counts parity row i is the same code (measured, harness); with
+   DIFFERENT data counts a reconstruction may be garbage and the code relies on the ARQ core's
+   conv/cmd/len filter to reject it - that event is outside these theorems (probabilistic in the
+   code itself), hence `partial`. *)
+Theorem c16_stream_intact_partial :
+  (forall mk st pkt st' fed,
+     sess_fec_input mk st pkt = Ok (st', fed) -> c_fecHeaderSizePlus2 <= blen pkt ->
+     exists rec, dec_decode mk st pkt = Ok (st', rec) /\
+       fed = (if pk_flag pkt =? c_typeData then [(skipn 8 pkt, c_IKCP_PACKET_REGULAR)] else [])
+             ++ concat (map strip_rec rec)) /\
+  (forall r, strip_rec r = [] \/
+     exists sz, sz = rd16 r /\ 2 <= sz <= blen r /\
+       strip_rec r = [(firstn (Z.to_nat (sz - 2)) (skipn 2 r), c_IKCP_PACKET_FEC)]).
+Proof. exact (conj sess_feeds_data_first strip_rec_spec). Qed.
+Print Assumptions c16_stream_intact_partial.
+
+(* ---- non-vacuity ---- *)
+(* a 3/2 sender, a run of 7 samples starting at seqid 4 (4 mod 5 = 4 = d+p-1): both periods found;
+   a 2/1 receiver meets a mismatch among ids 0..7 of a 3/2 sender; a matching packet exists *)
+Example c16_example :
+  (let t := fold_left (fun t i => at_sample t ((4 + Z.of_nat i) mod 5 <? 3) (4 + Z.of_nat i)) (seq 0 7) at_init in
+   at_wf t /\ at_window t = run_pulses 3 2 4 7 /\ find_period t true = 3 /\ find_period t false = 2) /\
+  (exists st, dec_new 2 1 = Some st /\ type_mismatch st 2 (sender_flag 3 2 2) = true) /\
+  matching_pkt 3 2 (le32 8 ++ le16 c_typeParity ++ [1; 2; 3]).
+Proof. exact c16_example_lemma. Qed.
